@@ -38,6 +38,7 @@ PF = gen.Profile(
     deps=0.55,
     gaps=True,
     dup_edges=True,
+    local_ids=True,
     onstart=True,
     precedes=True,
     container_deps=True,
